@@ -163,6 +163,29 @@ func checkFormat(c *Ctx, meaning bool) error {
 		c.Cov["recorded_fmt_events_validated"] = pres.TotalF
 		c.Cov["recorded_line_kinds_validated"] = pres.TotalK
 	}
+	// mixed --all runs (Toolchain!FormatFold): files that cannot be formatted (unbalanced end marker:
+	// reported, left as they are, the run goes on) FIRST in walk order, files that are not .ra files
+	// in between, then files the spec formats.  Every file must end up exactly as if it had been
+	// formatted alone.
+	var unbalanced []FmtCase
+	for _, fc := range failing {
+		// (a file that also has a flags line may end the whole process before the marker is seen)
+		if fc.Err == "unbalanced" && !strings.Contains(fc.Raw, "##!+") {
+			unbalanced = append(unbalanced, fc)
+		}
+	}
+	mixed := 8
+	if c.Tier == "thorough" {
+		mixed = 60
+	}
+	if len(unbalanced) > 0 && len(normal) > 0 {
+		parallel(mixed, 8, func(b int) {
+			if e := fmtMixed(c, fmt.Sprintf("fm%d", b), b, unbalanced, normal, &cli); e != nil {
+				setErr(e)
+			}
+		})
+		c.Cov["mixed_all_runs"] = mixed
+	}
 	// every k-th normal case additionally through the single-file command
 	step := len(normal)/150 + 1
 	var singles []FmtCase
@@ -354,6 +377,74 @@ func fmtBatch(c *Ctx, pool *inprocPool, name string, cs []FmtCase, meaning bool,
 				bad(i, "regex generate differs before and after format", map[string]any{"before": gen0[i], "after": o, "real_formatted": after3["regex-assembly/"+names[i]]})
 			}
 			_ = fc
+		}
+	}
+	return nil
+}
+
+// fmtMixed: one --all run over failing files, decoys and formattable files.
+func fmtMixed(c *Ctx, name string, b int, failing, normal []FmtCase, cli *int64) error {
+	root, err := c.newSandbox(name)
+	if err != nil {
+		return err
+	}
+	defer os.RemoveAll(root)
+	t := Tree{}
+	for k, v := range fmtIncludes {
+		t[k] = v
+	}
+	pick := func(l []FmtCase, k int) FmtCase {
+		return l[int(caseHash([]string{fmt.Sprint(b, k)}, c.Seed)%uint64(len(l)))]
+	}
+	type ent struct {
+		path string
+		fc   FmtCase
+		fail bool
+	}
+	var ents []ent
+	for k := 0; k < 2; k++ {
+		ents = append(ents, ent{fmt.Sprintf("regex-assembly/%06d.ra", 100000+k), pick(failing, k), true})
+	}
+	for k := 0; k < 20; k++ {
+		ents = append(ents, ent{fmt.Sprintf("regex-assembly/%06d.ra", 200000+k), pick(normal, 100+k), false})
+	}
+	for _, e := range ents {
+		t[e.path] = e.fc.Raw
+	}
+	// not assembly files: between the failing and the other files, and before everything
+	t["regex-assembly/000README.md"] = "  ##!> assemble\n"
+	t["regex-assembly/100001.ra.orig"] = "  stale \n"
+	t["regex-assembly/150000.txt"] = "  x \n"
+	if err := writeTree(root, t); err != nil {
+		return err
+	}
+	before, _ := snapshot(root)
+	r := c.runCLI(root, "", "-d", root, "regex", "format", "--all")
+	atomic.AddInt64(cli, 1)
+	after, _ := snapshot(root)
+	bad := func(why string, extra map[string]any) {
+		d := map[string]any{"why": why, "mode": "--all over failing files, other files and formattable files"}
+		for k, v := range extra {
+			d[k] = v
+		}
+		c.violation("format", d)
+	}
+	if r.Exit == 0 {
+		bad("format --all exits 0 although files with an unbalanced end marker cannot be formatted", nil)
+	}
+	for _, e := range ents {
+		want := e.fc.Out
+		if e.fail {
+			want = e.fc.Raw
+		}
+		if after[e.path] != want {
+			bad("a file of the run is not what formatting it alone gives", map[string]any{"path": e.path, "file": e.fc.Raw, "spec": want, "real": after[e.path], "cannot_be_formatted": e.fail})
+			return nil
+		}
+	}
+	for p, v := range before {
+		if !strings.HasSuffix(p, ".ra") && after[p] != v {
+			bad("format --all changed a file that is not an assembly file", map[string]any{"path": p})
 		}
 	}
 	return nil
